@@ -8,6 +8,7 @@ package main
 import (
 	"fmt"
 	"go/types"
+	"strings"
 )
 
 type congInfo struct {
@@ -159,7 +160,8 @@ func (w *World) congAxioms(vc *VC) []string {
 				}
 			}
 			l1, r1 := lhs, Subst(rhs, sub)
-			c1 := Forall(bs1, Implies(Eq(Select(e1, SlArr(s1)), Select(e2, SlArr(s1))), Eq(l1, r1)), []*Term{l1, r1})
+			hsN := vc.heapSucc(ci.elemKey)
+			c1 := Forall(bs1, Implies(Eq(Select(e1, SlArr(s1)), Select(e2, SlArr(s1))), Eq(l1, r1)), []*Term{l1, r1}, []*Term{l1, App(hsN, SBool, e1, e2)})
 			out = append(out, "(assert "+c1.String()+")")
 		}
 	}
@@ -233,4 +235,24 @@ func (w *World) VerifyCongruence(c *Congruence) (*VC, error) {
 		o.Extra = []*Term{ih}
 	}
 	return vc, nil
+}
+
+// heapSucc declares the marker relation "heap E1 was derived from heap E2"
+// of an element heap; it only serves as a trigger for the congruence C1.
+func (vc *VC) heapSucc(key string) string {
+	name := smtName("heapsucc!" + key)
+	if _, ok := vc.decl[name]; !ok {
+		hs := vc.w.heapSort[key]
+		vc.decl[name] = fmt.Sprintf("(declare-fun %s (%s %s) Bool)", name, hs, hs)
+		vc.declO = append(vc.declO, name)
+	}
+	return name
+}
+
+// noteSucc records that heap term e1 of the given key derives from e2.
+func (vc *VC) noteSucc(key string, e1, e2 *Term) {
+	if !strings.HasPrefix(key, "E:") || e1 == e2 {
+		return
+	}
+	vc.assume(True, App(vc.heapSucc(key), SBool, e1, e2))
 }
